@@ -930,6 +930,10 @@ class Tensor:
         if self._base is None:
             return self._grad
 
+        if self._constant:
+            # a constant view of a non-constant base never has a gradient
+            return None
+
         if self._view_grad is not None and self._view_grad.base is self._base._grad:
             # view grad has been computed already
             return self._view_grad
